@@ -187,16 +187,51 @@ Row(f) == LET r == ParseFile(f) IN
 \* write side: a value (as option value and as subsection name) and what must be read back
 WRow(v) == [v |-> v, tabfree |-> \A j \in 1..Len(v) : v[j] # "tab"]
 
+(* ---------------- edit semantics: load, change one variable, write (git config --replace-all) ----------------
+   Variable names are case-insensitive (section and key are folded by the lexer above), so the spelling of a key in the
+   file does not matter for which entries belong to a variable.  Setting a variable to a list of values replaces *all*
+   its entries; every other variable keeps its entries.  A file here is a sequence of entries [var, sp, val]:
+     var  the variable (already folded), sp the spelling class of the key as written in the file
+          ("canon" = the spelling go-git itself writes, "upper" = all capitals, "other" = another mix of cases),
+     val  an abstract value id.
+   The harness renders such a file, loads it with config.Unmarshal, assigns the new values through the Config value,
+   marshals, and reads every variable back with go-git and with git config --get-all / --list.                     *)
+EditVars   == {"remote.url", "remote.fetch", "url.insteadof", "branch.merge", "branch.remote"}
+MultiVars  == {"remote.url", "remote.fetch", "url.insteadof"}
+Spellings  == {"canon", "upper", "other"}
+GetAll(es, var)  == LET hit == SelectSeq(es, LAMBDA e : e.var = var) IN [j \in 1..Len(hit) |-> hit[j].val]
+SetAll(es, var, vals) == SelectSeq(es, LAMBDA e : e.var # var) \o [j \in 1..Len(vals) |-> [var |-> var, sp |-> "canon", val |-> vals[j]]]
+\* an edit scenario: the edited variable occurs with the spellings sps (old values o1, o2), a bystander variable by is
+\* present once with spelling bsp (value o3); it is set to nnew new values
+Scenario(var, sps, by, bsp, nnew) ==
+  [file |-> [j \in 1..Len(sps) |-> [var |-> var, sp |-> sps[j], val |-> IF j = 1 THEN "o1" ELSE "o2"]]
+            \o << [var |-> by, sp |-> bsp, val |-> "o3"] >>,
+   var  |-> var,
+   new  |-> [j \in 1..nnew |-> IF j = 1 THEN "n1" ELSE "n2"]]
+\* one bystander per edited variable (a fixed cycle through the variables keeps the table small)
+Bystander(var) == CASE var = "remote.url" -> "remote.fetch" [] var = "remote.fetch" -> "url.insteadof"
+                    [] var = "url.insteadof" -> "branch.merge" [] var = "branch.merge" -> "branch.remote" [] OTHER -> "remote.url"
+Edits == {Scenario(var, sps, Bystander(var), bsp, nnew) :
+             var \in EditVars, sps \in UNION {[1..m -> Spellings] : m \in 1..2}, bsp \in Spellings, nnew \in 1..2}
+ValidEdit(e) == /\ e.file[Len(e.file)].var # e.var                               \* the bystander is another variable
+                /\ (e.var \notin MultiVars => (Len(e.new) = 1 /\ Len(e.file) = 2))  \* single-valued: one entry, one value
+EditDomain == {e \in Edits : ValidEdit(e)}
+ERow(e) == LET after == SetAll(e.file, e.var, e.new) IN
+           [file |-> e.file, var |-> e.var, new |-> e.new,
+            want |-> [v \in EditVars |-> GetAll(after, v)]]
+
 ASSUME Emit => /\ ndJsonSerialize("cfg_rows.ndjson", SetToSeq({Row(f) : f \in Files}))
                /\ ndJsonSerialize("cfg_wrows.ndjson", SetToSeq({WRow(v) : v \in Vals}))
                /\ ndJsonSerialize("cfg_bool.ndjson", SetToSeq({[t |-> t, b |-> GitBool(t)] : t \in BoolTokens}))
                /\ ndJsonSerialize("cfg_int.ndjson", SetToSeq({[t |-> t, i |-> GitInt[t]] : t \in IntTokens}))
+               /\ ndJsonSerialize("cfg_edit.ndjson", SetToSeq({ERow(e) : e \in EditDomain}))
 
 (* ---------------- states and theorems ---------------- *)
 VARIABLES kind, str
 vars == <<kind, str>>
 Init == \/ kind = "file" /\ str \in Files
         \/ kind = "val" /\ str \in Vals
+        \/ kind = "edit" /\ str \in EditDomain
 Next == UNCHANGED vars
 Spec == Init /\ [][Next]_vars
 
@@ -212,6 +247,12 @@ NoEdgeBlanksUnquoted == (kind = "file" /\ ~P.err /\ "quote" \notin P.tags /\ "es
 CommentNeutral == (kind = "file" /\ Len(str) > 0 /\ str[Len(str)] = "nl") =>
    LET Q == ParseFile(str \o <<"#", "x", "nl">>) IN Q.err = P.err /\ (~P.err => Q.ents = P.ents)
 \* write side: the reference encoding (git's own quoting) of every value and subsection name reads back as itself
+\* edit semantics: after setting a variable, reading it gives exactly the new values whatever the old spellings were,
+\* and every other variable reads as before
+SetThenGet == kind = "edit" =>
+   LET after == SetAll(str.file, str.var, str.new) IN
+   /\ GetAll(after, str.var) = str.new
+   /\ \A v \in EditVars \ {str.var} : GetAll(after, v) = GetAll(str.file, v)
 RefRoundTrip == kind = "val" =>
    LET sub == IF \A j \in 1..Len(str) : str[j] # "nl" THEN str ELSE <<>>     \* a subsection name cannot hold a newline
        R   == ParseFile(RefFile(sub, str))
